@@ -1,5 +1,5 @@
 """Registry: unit id -> (builder, properties served); property id -> info for the evidence file."""
-from . import u02_cf_builtins, u03_errexit, u01_results, u05_arith_eval, u06_arith_literal, u20_spans, u04a_while, u04e_andor, u04d_if, u04c_arithfor, u04g_list, u04h_program, u04f_case, u04b_for, u04i_fntail, u04j_subshell
+from . import u02_cf_builtins, u03_errexit, u01_results, u05_arith_eval, u06_arith_literal, u20_spans, u04a_while, u04e_andor, u04d_if, u04c_arithfor, u04g_list, u04h_program, u04f_case, u04b_for, u04i_fntail, u04j_subshell, u04k_pipeline
 
 UNITS = {
     'U1': (u01_results.build, u01_results.PROPS),
@@ -15,6 +15,7 @@ UNITS = {
     'U4h': (u04h_program.build, u04h_program.PROPS),
     'U4i': (u04i_fntail.build, u04i_fntail.PROPS),
     'U4j': (u04j_subshell.build, u04j_subshell.PROPS),
+    'U4k': (u04k_pipeline.build, u04k_pipeline.PROPS),
     'U5': (u05_arith_eval.build, u05_arith_eval.PROPS),
     'U6': (u06_arith_literal.build, u06_arith_literal.PROPS),
     'U20': (u20_spans.build, u20_spans.PROPS),
